@@ -236,8 +236,17 @@ func (g *Gen) NodeSet(depth int, top bool) *Expr {
 	default:
 		if len(g.nsVars) > 0 {
 			v := &Expr{Op: "var", Lo: ch(g.nsVars[g.r.Intn(len(g.nsVars))])}
-			if g.r.Intn(2) == 0 {
+			switch g.r.Intn(4) {
+			case 0, 1:
 				return &Expr{Op: "filter", Prim: v, Steps: g.steps(depth-1, top)}
+			case 2:
+				// a node test applied to the variable's own nodes ($v/self::a ...): nothing stands between
+				// the caller's node-set and the step
+				st := []Step{{Ax: "self", Test: g.test("self")}}
+				if g.r.Intn(2) == 0 {
+					st = append(st, g.steps(depth-1, top)...)
+				}
+				return &Expr{Op: "filter", Prim: v, Steps: st}
 			}
 			return v
 		}
